@@ -96,6 +96,10 @@ func (fr *frame) call(st *PState, site ssa.Instruction, c *ssa.CallCommon, k0 fu
 	case *FuncVal:
 		fr.callFunction(st, v.Fn.String(), v.Fn, c.Signature(), args, k)
 	case *WriteCacheVal:
+		// guard clauses "before writeCache requires ..." apply to the commit of a cache context
+		if fr.depth == 0 {
+			fr.checkGuards(st, "writeCache", c.Signature(), args)
+		}
 		// parent state := child state
 		child := Select(st.kv, v.Child, SState)
 		st.kv = st.Name("kv", Store(st.kv, v.Parent, child))
